@@ -20,7 +20,7 @@ Tolerance classes (relative), fixed in DESIGN.md §2.1:
      the pinned tree's value, 1e-9 -- a pure change detector, said so in evidence.
 """
 
-from fractions import Fraction as Fr
+from fractions import Fraction as Fr  # noqa: re-exported as T.Fr
 
 import mpmath as mp
 
